@@ -2,6 +2,7 @@
 spec/concat/DrillholeConcat.tla, and replay paths of the exported state graph."""
 from __future__ import annotations
 
+import os
 import shutil
 import tempfile
 from collections import Counter
@@ -334,6 +335,18 @@ def replay_path(item):
             recheck_copies(scene)
     except Mismatch as m:
         viol.append({"signature": m.signature, "summary": f"step {done}: {m.summary}",
+                     "case": {"version": item["version"], "kind": item.get("kind", "float"),
+                              "plain_child": bool(item.get("plain_child")), "steps": item["steps"][:done], "tail": None}})
+    except Exception as exc:  # pylint: disable=broad-except
+        # an exception raised INSIDE geoh5py while the harness merely observes the state (reading a hole, loading the file
+        # with a fresh reader) is an answer of the implementation, not a failure of the machinery
+        import traceback
+        frames = traceback.extract_tb(exc.__traceback__)
+        if not frames or "/geoh5py/" not in frames[-1].filename.replace("\\", "/"):
+            raise
+        viol.append({"signature": f"observation-raises:{type(exc).__name__}",
+                     "summary": f"step {done}: reading the state back raised {type(exc).__name__}: {str(exc)[:200]} "
+                                f"(at {os.path.basename(frames[-1].filename)}:{frames[-1].lineno})",
                      "case": {"version": item["version"], "kind": item.get("kind", "float"),
                               "plain_child": bool(item.get("plain_child")), "steps": item["steps"][:done], "tail": None}})
     finally:
